@@ -468,7 +468,62 @@ def rule_instance_defaults(run):
     run.end()
 
 
-RULES = [rule_wrappers, rule_polarity, rule_reset_set, rule_first_state, rule_defaults, rule_combined, rule_instance_defaults]
+def rule_optional_overrides(run):
+    run.begin(
+        "C04.h",
+        "optional reset / step_cond / on_reset / clock arguments are recognised by `is None`, never by their truth value: "
+        "a std.Reset is falsy whenever its signal is low at elaboration, so `reset or self._reset` silently drops an "
+        "active-high reset; the sensitivity list of a wrapper keeps every signal it is given",
+        floor=5,
+    )
+    sc = run.idx.mod(STDCTX)
+    NAMES = {"reset", "step_cond", "on_reset", "clk", "clock", "trigger"}
+    n = 0
+    for q, f in sc.functions.items():
+        params = {a.arg for a in f.node.args.args + f.node.args.kwonlyargs} & NAMES
+        if not params:
+            continue
+        for x in walk_local(f.node):
+            operands = []
+            if isinstance(x, ast.BoolOp):
+                operands = x.values
+            elif isinstance(x, (ast.If, ast.IfExp, ast.While)):
+                operands = [x.test]
+            elif isinstance(x, ast.UnaryOp) and isinstance(x.op, ast.Not):
+                operands = [x.operand]
+            for o in operands:
+                if isinstance(o, ast.Name) and o.id in params:
+                    # `if reset:` inside a traced wrapper is the hardware reset test itself (C04.a), not an override test
+                    inner = sc.parents.enclosing_function(x)
+                    if inner is not None and inner.name == "wrapper":
+                        continue
+                    n += 1
+                    run.ob(False, q, file=sc.rel, line=x.lineno, detail=f"truthiness-of-{o.id}", expected=f"`{o.id} is None` / `{o.id} is not None`", found=src(x)[:70])
+    # positive side: the override selections that exist use identity tests
+    sel = 0
+    for q, f in sc.functions.items():
+        for x in walk_local(f.node):
+            if isinstance(x, ast.IfExp) and isinstance(x.test, ast.Compare) and isinstance(x.test.ops[0], (ast.Is, ast.IsNot)) and isinstance(x.test.left, ast.Name) and x.test.left.id in NAMES:
+                sel += 1
+                run.ob(True, q, file=sc.rel, line=x.lineno, detail=f"override-{x.test.left.id}@{x.lineno - f.node.lineno}", expected="identity test against None", found=src(x.test), sample=False)
+    # sensitivity list construction keeps all arguments
+    im = run.idx.mod("cohdl/_core/_intrinsic.py")
+    f = im.func("sensitifity_list_replacement") if im.has_func("sensitifity_list_replacement") else None
+    if f is None:
+        cands = [g for q, g in im.functions.items() if any(dotted(c.func) == "_SensitivityList" for c in calls_in(g.node))]
+        if len(cands) != 1:
+            raise AnalysisError("replacement of cohdl.sensitivity.list not found")
+        f = cands[0]
+    va = f.node.args.vararg.arg if f.node.args.vararg else None
+    ok = va is not None and P.has(f.node, f"return _SensitivityList([*{va}])") or (va is not None and P.has(f.node, f"return _SensitivityList(list({va}))"))
+    filt = [x for x in walk_local(f.node) if isinstance(x, ast.Compare) and any(isinstance(o, (ast.In, ast.NotIn, ast.Eq, ast.NotEq)) for o in x.ops)]
+    run.ob(ok and not filt, "sensitivity.list", file=im.rel, line=f.node.lineno, detail="keeps-all-signals",
+           expected="_SensitivityList([*args]) - no filtering (== on signals compares their VALUES, so `in` treats clock and reset as duplicates)",
+           found="ok" if ok and not filt else "; ".join(src(x) for x in filt) or src(f.node.body[-1])[:60])
+    run.end()
+
+
+RULES = [rule_wrappers, rule_polarity, rule_reset_set, rule_first_state, rule_defaults, rule_combined, rule_instance_defaults, rule_optional_overrides]
 LEVEL = "other"
 EXPLANATION = (
     "Shape analysis of everything the reset behaviour of every design is built from: the std.sequential wrappers "
